@@ -73,6 +73,14 @@ func SignHashEnvelope(rand io.Reader, signer Signer, headers Headers, payload Ha
 
 	headers.Protected = setHashEnvelopeProtectedHeader(headers.Protected, &payload)
 	headers.RawProtected = nil
+	if len(headers.RawUnprotected) > 0 {
+		// RawUnprotected is what gets emitted: validate that, not the ignored map
+		var unprotected UnprotectedHeader
+		if err := unprotected.UnmarshalCBOR(headers.RawUnprotected); err != nil {
+			return nil, err
+		}
+		headers.Unprotected = unprotected
+	}
 	if err := validateHashEnvelopeHeaders(&headers); err != nil {
 		return nil, err
 	}
